@@ -93,6 +93,7 @@ def judge(case, out):
     last_was_drain = False
     i = 0
     pending_after = []  # pings written and not yet followed by a callback
+    returned_pings = []
     polls_after_close = 0
     polls_after_ping = 0
     for t in toks:
@@ -105,6 +106,12 @@ def judge(case, out):
                 fails.append("callback after the source removed itself")
             expect_cb = False
             pending_after = []
+            returned_pings = []
+            continue
+        if t[0] == "P" and t[1:].isdigit():
+            # a ping() call returned: a callback must start after it began (if the loop keeps dispatching)
+            returned_pings.append(t)
+            polls_after_ping = 0
             continue
         if t == "RM":
             if not closed_written:
@@ -119,7 +126,7 @@ def judge(case, out):
         if yid == "132":
             if closed_written:
                 polls_after_close += 1
-            if pending_after:
+            if pending_after or returned_pings:
                 polls_after_ping += 1
         if yid == "102":
             polls_after_ping = 0
@@ -146,6 +153,8 @@ def judge(case, out):
             last_was_drain = True
     if last_was_drain and expect_cb:
         fails.append("lost: the last drain followed ping(s) but did not call back")
+    if returned_pings and not removed and polls_after_ping > 0:
+        fails.append("lost: ping() returned (%s) but no callback started afterwards although the loop kept dispatching" % returned_pings)
     if pending_after and not removed and polls_after_ping > 0:
         fails.append("lost: %d completed ping(s) were never followed by a callback although the loop kept dispatching" % len(pending_after))
     if handles == 0 and not closed_written:
